@@ -308,6 +308,32 @@ def rule_scan_loops(ctx: Ctx, rule: str, which: set[str] | None = None) -> None:
                 (isinstance(v, Opaque) and v.tag == entry and p.decisions.get(entry) is False)
             if not ok:
                 bad_m.append(f'after an iteration on {c!r} the marker is {_tag(v)[:50]}')
+    # a POSIX class ends a pending range: the iteration that consumed one hands over "no range end pending"
+    bad_r = []
+    n_r = 0
+    for p in rows:
+        focus(p)
+        hp = [e for e in p.of('call') if e[1] == f'{WP}:WcParse._handle_posix' and len(e[2]) >= 3]
+        if not hp:
+            continue
+        t = _tag(hp[0][2][2])
+        if not t.startswith('loop@while:'):
+            bad_r.append(f'_handle_posix is not given the pending range end of the loop but {t[:40]}')
+            continue
+        er = t[len('loop@while:'):]
+        for e in p.of('iterend'):
+            if e[2] != 'next':
+                continue
+            consumed = isinstance(e[3].get(lp), Opaque) and e[3][lp].tag.startswith(f'{WP}:WcParse._handle_posix(') and \
+                p.decisions.get(e[3][lp].tag) is True
+            if consumed:
+                n_r += 1
+                if e[3].get(er) != 0:
+                    bad_r.append(f'after a POSIX class the pending range end is {_tag(e[3].get(er))[:40]}, not 0')
+    emit(f'{WP}:WcParse._sequence/range-end-cleared-by-posix', n_r >= 1 and not bad_r, site,
+         'the iteration that consumed a POSIX class leaves no range end pending (a class cannot be a range end point)',
+         f'{n_r} rows agree' if n_r and not bad_r else (sorted(set(bad_r))[0] if bad_r else 'no row consumes a POSIX class'),
+         "fnmatch.translate('[a-[:alpha:][:digit:]]') must compile; fnmatch('b', '[a-[:alpha:]!]') must be True")
     # the internal capture marker `(?#)` is removed textually from finished regexes: a bracket must not be able to spell it
     marker_rows = [p for p in rows if _char(p, scan) == '#']
     okm = bool(marker_rows)
